@@ -207,6 +207,32 @@ Definition ka_react (me : nat) (o : ka_out) (late_cancel disconnecting : bool) (
   | _ => st
   end.
 
+(* The same reaction as the sequence of operations the goroutine performs on the client, to make
+   explicit what it asks of the peer: nothing.  A Transport.Write has no deadline; it returns only
+   if the peer (or the link) takes the bytes.  [accepts = false]: the peer has stopped reading. *)
+Inductive react_op :=
+| OpSetError (e : ka_err)     (* baseCli.SetErrorOnce(err) *)
+| OpWrite (pkt : N)           (* a packet written to the transport (first byte) *)
+| OpClose.                    (* baseCli.Close(): closes the transport locally *)
+
+Definition react_ops (o : ka_out) (late_cancel disconnecting : bool) : list react_op :=
+  match ko_result o with
+  | KA_returned e =>
+      if is_some (ko_parent o) || late_cancel || disconnecting then [] else [OpSetError e; OpClose]
+  | _ => []
+  end.
+
+(* None = blocked for ever in Transport.Write *)
+Fixpoint run_ops (accepts : bool) (me : nat) (ops : list react_op) (st : clients) : option clients :=
+  match ops with
+  | [] => Some st
+  | OpSetError e :: r => run_ops accepts me r (set_error_once me e st)
+  | OpWrite _ :: r => if accepts then run_ops accepts me r st else None
+  | OpClose :: r => run_ops accepts me r (close_cli me st)
+  end.
+
+Definition op_is_write (x : react_op) : bool := match x with OpWrite _ => true | _ => false end.
+
 (* the keep-alive goroutine is only started for a positive interval (reconnclient.go:121) *)
 Definition rc_keepalive (I T : N) (s : list ping_outcome) : option ka_out :=
   if 0 <? I then Some (keepalive I T s) else None.
